@@ -97,18 +97,18 @@ def _case(phrase, cls, tag="", **x):
 def shards(tier, seed):
     out = []
     T = tier == "thorough"
-    out.append({"name": "entropy-patterns", "count": 4000 if T else 300})
+    out.append({"name": "entropy-patterns", "count": 6000 if T else 1200})
     for n in bip39.LEGAL_COUNTS:
         # position sweep split by position groups to balance
         for grp in range(4):
-            out.append({"name": "pos-sweep-%d-%d" % (n, grp), "n": n, "grp": grp, "reps": 3 if T else 1,
+            out.append({"name": "pos-sweep-%d-%d" % (n, grp), "n": n, "grp": grp, "reps": 6 if T else 2,
                         "exhaustive": "every word x every position, %d-word phrases" % n})
     for lo in range(1, 41, 5):
-        out.append({"name": "lastword-%d" % lo, "counts": list(range(lo, min(lo + 5, 41))), "prefixes": 6 if T else 1,
+        out.append({"name": "lastword-%d" % lo, "counts": list(range(lo, min(lo + 5, 41))), "prefixes": 12 if T else 2,
                     "exhaustive": "all 2048 final words for word counts %d..%d" % (lo, min(lo + 4, 40))})
-    out.append({"name": "counts", "reps": 40 if T else 6, "exhaustive": "word counts 0..40"})
-    out.append({"name": "unknown-words", "count": 3000 if T else 400})
-    out.append({"name": "layouts", "count": 3000 if T else 300})
+    out.append({"name": "counts", "reps": 80 if T else 12, "exhaustive": "word counts 0..40"})
+    out.append({"name": "unknown-words", "count": 8000 if T else 1200})
+    out.append({"name": "layouts", "count": 8000 if T else 1000})
     return out
 
 
